@@ -48,6 +48,7 @@ var (
 	cDupIdx       = simrt.RegisterCounter("probe_device_list_with_duplicate_index")
 	cNotModelled  = simrt.RegisterCounter("probe_block_not_judged_by_device_model")
 	cSubBand      = simrt.RegisterCounter("op_sub_band_configuration")
+	cSharedBand   = simrt.RegisterCounter("op_shared_band_with_concurrent_planners")
 	cPlaceholder  = simrt.RegisterCounter("op_add_placeholder_slot_frequency_0")
 	cFreshChanged = simrt.RegisterCounter("probe_fresh_config_differs_after_run")
 	cNotConverged = simrt.RegisterCounter("probe_not_converged_after_faults")
@@ -120,6 +121,35 @@ func build(sw *sim.World) {
 		w.maxIdx = 40
 	}
 	r := sim.NewRand(simrt.Raw())
+	if simrt.Choose(5) == 0 {
+		// shared band: the history is applied before the tasks start, then 2-4
+		// request handlers plan for their own devices on the SAME band object
+		// at the same time (planning only inspects the band). Every plan is
+		// judged exactly as in the single-owner runs; a planner that is not
+		// read-only any more shows up as a data race or as a wrong plan.
+		nOps := r.Intn(1 + 12*sim.Scale)
+		for k := 0; k < nOps; k++ {
+			w.bandOp(r)
+		}
+		n := 2 + simrt.Choose(3)
+		sw.Notef("W-ADR (shared band): %s repeater=%v dwell=%d, %d operations before %d concurrent planners", w.name, rep, dt, nOps, n)
+		simrt.Count(cSharedBand)
+		for i := 0; i < n; i++ {
+			sub := simrt.Raw()
+			k := 2 + simrt.Choose(4)
+			sw.Spawn(fmt.Sprintf("handler%d", i), func() {
+				rr := sim.NewRand(sub)
+				for j := 0; j < k; j++ {
+					if simrt.Dead() {
+						return
+					}
+					w.judge(randomSet(rr, w.maxIdx, w.m), "shared band")
+				}
+				simrt.Count(cNontrivial)
+			})
+		}
+		return
+	}
 	w.sess = pipe.NewSession(r, r.Intn(2) == 0)
 	w.down, w.up = sim.NewMailbox(), sim.NewMailbox()
 	sw.Notef("W-ADR: %s repeater=%v dwell=%d, %d steps, faults=%v", w.name, rep, dt, nSteps, w.faults)
